@@ -7,3 +7,5 @@ import Props.C19
 #print axioms RunCmd.outdir_injective
 #print axioms RunCmd.bad_name_fails_task
 #print axioms RunCmd.status_total
+#print axioms RunCmd.build_eq_run
+#print axioms RunCmd.build_done_iff
